@@ -52,10 +52,13 @@ func runC25(c *core.Ctx) {
 			n++
 			args := e.Site.Common().Args
 			addr := args[len(args)-1]
+			// the address may be what a helper returns after witnessing it (parse + ValidateOwner)
+			addrVia, release := valueVia(addr)
 			g := eng.NamedGuard{Name: "ValidateOwner(voter address) err==nil", G: ir.ErrNil(func(cl *ssa.Call) bool {
-				return ir.CalleeIs(cl, vo) && sameValue(cl.Common().Args[1], addr)
+				return ir.CalleeIs(cl, vo) && (sameValue(cl.Common().Args[1], addr) || (addrVia != addr && sameValue(cl.Common().Args[1], addrVia)))
 			})}
 			eng.Dominates(c, "C25.voter-is-witnessed", e.Caller, g, []ir.Sink{{Instr: e.Site, Note: sp[1]}}, sp[1]+" call", nil)
+			release()
 		}
 	}
 	c.Floor("CheckVotes/CheckSigns call sites", n, 3)
